@@ -32,6 +32,33 @@ func gen(t *rapid.T) Case {
 		MaxMembers: rapid.SampledFrom([]int{1, 2, 3, 6}).Draw(t, "maxmem"), MaxPts: rapid.SampledFrom([]int{1, 2, 3, 8}).Draw(t, "maxpts"),
 		Coord: vkit.CoordAnyBits()}
 	c.G = vkit.GenGJ(t, o)
+	if c.Neg == "" && rapid.IntRange(0, 24).Draw(t, "long") == 0 {
+		// point arrays longer than one internal read block (the decoder reads long arrays in chunks): lengths around
+		// multiples of 1024 and a few arbitrary long ones, alone or inside multi-geometries / collections
+		n := rapid.OneOf(rapid.IntRange(1020, 1030), rapid.IntRange(2040, 2056), rapid.IntRange(3000, 3100), rapid.IntRange(500, 5000)).Draw(t, "longn")
+		x0, y0 := vkit.CoordAnyBits().Draw(t, "lx"), rapid.Float64Range(-1e6, 1e6).Draw(t, "ly")
+		pts := make([]vkit.P2, n)
+		for i := range pts {
+			pts[i] = vkit.MkP(float64(i)*0.25+y0, y0-float64(i))
+		}
+		pts[0] = vkit.MkP(x0, y0)
+		long := vkit.GJ{T: "LineString", Pts: pts}
+		switch rapid.IntRange(0, 4).Draw(t, "longwrap") {
+		case 1:
+			long = vkit.GJ{T: "Polygon", Rings: [][]vkit.P2{{pts[0], pts[1], pts[2]}, pts, {}}}
+		case 2:
+			long = vkit.GJ{T: "MultiLineString", Rings: [][]vkit.P2{pts[:3], pts, pts[:1025%n]}}
+		case 3:
+			long = vkit.GJ{T: "MultiPolygon", Polys: [][][]vkit.P2{{pts}, {pts[:4], pts}}}
+		case 4:
+			long = vkit.GJ{T: "MultiPoint", Pts: pts}
+		}
+		if c.G.T == "GeometryCollection" {
+			c.G.Geoms = append(c.G.Geoms, long, vkit.GJ{T: "Point", Pts: []vkit.P2{vkit.MkP(1, 2)}})
+		} else {
+			c.G = long
+		}
+	}
 	c.BigEndian = rapid.Bool().Draw(t, "be")
 	c.Orders = rapid.SliceOfN(rapid.Bool(), 1, 12).Draw(t, "orders")
 	return c
@@ -92,6 +119,10 @@ func run(c Case) (v vkit.Verdict) {
 	}
 	if mixed {
 		v.Class("mixed_orders")
+	}
+	if c.G.NumVertices() > 1024 {
+		v.Class("array_longer_than_1024")
+		v.NonTrivial = true
 	}
 
 	// (2) byte-exact against the independent writer
@@ -165,7 +196,7 @@ func TestProp(t *testing.T) {
 	vkit.Main(t, vkit.Spec[Case]{
 		ID: "C05",
 		Rule: "rapid-generated geometries of the seven encodable types (collections nested to depth<=4, member counts 0-6, " +
-			"coordinates from arbitrary 64-bit patterns) x encoder byte order x per-element byte-order list for an independent " +
+			"coordinates from arbitrary 64-bit patterns; 4% of the cases carry a point array of 500-5000 points with lengths concentrated around multiples of 1024, the decoder's read block) x encoder byte order x per-element byte-order list for an independent " +
 			"OGC WKB writer; non-trivial = nesting depth>=2, or an empty member, or a NaN/Inf/-0/subnormal coordinate, or mixed " +
 			"per-element byte orders; distinct = distinct FNV-64 hash of the case JSON",
 		Assumptions: []string{"the reference serializer in props/c05 follows the OGC simple-features WKB layout", "nil and empty slices are identified"},
